@@ -19,6 +19,8 @@ func main() {
 		name, text = "Morton.lean", trMorton(filepath.Join(repo, "morton", "morton.go"))
 	case "flags":
 		name, text = "Flags.lean", trFlags(repo)
+	case "hits":
+		name, text = "Hits.lean", trHits(repo)
 	case "isquad":
 		name, text = "Isquad.lean", trIsquad(repo)
 	case "quadrants":
